@@ -188,6 +188,8 @@ class Check:
             args.append("-race"); env["CGO_ENABLED"] = "1"
         if overlay:
             args += ["-overlay", overlay]
+        if os.environ.get("VERIF_GOCOVER"):      # development aid: statement coverage of the library by a check (GOCOVERDIR must be set too)
+            args += ["-cover", "-coverpkg=verifharness/...,github.com/free5gc/nas/..."]
         args.append("./cmd/" + cmd)
         t = time.time()
         r = subprocess.run(args, cwd=hd, env=env, capture_output=True, text=True)
@@ -393,7 +395,7 @@ class Check:
                   wall_s=round(time.time() - self.t0, 2), violations=len(self.violations))
         # evidence under /verif/evidence describes runs against /repo itself; a run against another tree
         # (VERIF_REPO: seeded changes, proposed fixes) writes its evidence to a scratch location instead
-        evdir = os.path.join(VERIF, "evidence") if os.path.realpath(REPO) == "/repo" else os.environ.get("VERIF_EVIDENCE_DIR", "/tmp/verif-evidence-other-tree")
+        evdir = os.path.join(VERIF, "evidence") if (os.path.realpath(REPO) == "/repo" and not os.environ.get("VERIF_GOCOVER")) else os.environ.get("VERIF_EVIDENCE_DIR", "/tmp/verif-evidence-other-tree")
         os.makedirs(evdir, exist_ok=True)
         json.dump(ev, open(os.path.join(evdir, self.pid + ".json"), "w"), indent=1)
         for (op, cls), desc in sorted(self.known_hits.items()):
